@@ -252,15 +252,6 @@ class _HistCtx:
         return _NS
 
 
-def field_of(res, name, default=None):
-    """(explicit value | None, extra-dict view | None): where the value of a dataclass field of a constructed result comes from."""
-    v = res._v if isinstance(res, C.View) else res
-    ex = v.vals["__explicit__"]
-    if name in ex:
-        return ex[name], None
-    return None, v.vals["__extra__"]
-
-
 def extra_field_is(c, res, name, default_term):
     """Field `name` (not passed explicitly) of the result equals the entry of the **fields_ mapping, the dataclass default when absent."""
     v = res._v if isinstance(res, C.View) else res
@@ -683,8 +674,6 @@ class _Pareto(Contract):
 
 
 _PLOOPS = {
-    0: LoopSpec(anchor="enumerate(feasible_points)", modifies=("pareto_optimal", "feasible_indexes"), inv=_pareto_inv0,
-                local_types={"feasible_indexes": None, "i": TInt}),
     1: LoopSpec(anchor="enumerate(feasible_indexes)", modifies=("pareto_optimal",), inv=_pareto_inv1,
                 local_types={"i": TInt, "feasible_index": TInt, "obj": F1, "before_are_worse": TBool, "after_are_worse": TBool}, lemmas=_criterion_split),
 }
@@ -710,13 +699,6 @@ class ParetoOptimalPoints(_Pareto):
 # ---------------------------------------------------------------------------- MultiObjectiveOptimizationResult
 PF = A + "pareto.pareto_front.ParetoFront"
 from pyvc.values import ValS, val_none  # noqa: E402
-
-pareto_front_of = z3.Function("c04_pareto_front_of_history", TDict(HNd, POINT, ordered=True).sort(), ValS)
-
-
-def _db_term(D):
-    return TDict(HNd, POINT, ordered=True).dt.mk(D.member, D.vals, D.n, D.keys, D.pos) if False else D
-
 
 @register
 class ParetoFrontFromProblem(Contract):
